@@ -173,6 +173,7 @@ def run_check(prop, tier, seed):
     excluded_known = {}
     notes = []
     reasons = {}
+    inc_samples = {}
     for i, outp, _ in procs:
         if not os.path.exists(outp):
             continue
@@ -196,6 +197,8 @@ def run_check(prop, tier, seed):
                 if r["st"] in ("inconclusive", "invalid_config"):
                     key = f"{r['st']}:{str(r.get('reason'))[:80]}"
                     reasons[key] = reasons.get(key, 0) + 1
+                    if "case" in r and key not in inc_samples and len(inc_samples) < 12:
+                        inc_samples[key] = r["case"]
                 if r["st"] == "violation":
                     if r.get("known"):
                         excluded_known[r["known"]] = excluded_known.get(r["known"], 0) + 1
@@ -235,6 +238,7 @@ def run_check(prop, tier, seed):
         "status_counts": status_counts,
         "label_histogram": dict(sorted(label_counts.items())),
         "reasons": dict(sorted(reasons.items(), key=lambda kv: -kv[1])[:12]),
+        "inconclusive_samples": inc_samples,
         "replayed_regressions": n_replayed,
         "excluded_known": excluded_known,
         "shards": nshards,
